@@ -23,7 +23,7 @@ def act? (t : String) : Option Act :=
   else none
 
 /-- the kernel's answers of one read event: `-`, or comma separated chunk sizes, optionally ended by a letter:
-`a` EAGAIN, `z` end of file, `r` ECONNRESET, `i` EINTR, `o` EIO -/
+`a` EAGAIN, `z` end of file, `r` ECONNRESET, `i` EINTR (transient like EAGAIN: the connection stays, fix 1c1abc6), `o` EIO -/
 def answers? (a : String) : Option (List Nat × Nat) :=
   if a == "-" then some ([], 0)
   else
